@@ -33,6 +33,10 @@ SPEC = dict(
          'name (user/releases/bin/f), a decoy with the opposite attributes at the lexically cleaned place (app/bin/f): hostile '
          'real + root-controlled decoy, group-writable real + root decoy, root real + hostile decoy, no decoy; 6 apis and '
          'Validate with 4 configuration variants. '
+         'All calls of one case on one name go through ONE CmdSensor / CmdFan object (as in the daemon); histories on one object: '
+         'two good reads, then chown / chmod o+w / g+w with a non-root group / removal / re-pointed symlink, four more reads '
+         '(each must return an error and start nothing), repair, a read, the change again, a read - 6 apis x direct/symlink; '
+         'half of the random sequences also stay on one api. '
          'EVERY start of a script appends its id and stat -L of its own path to a marker file, so the observation is the list '
          'of starts inside one call with the attributes at each start. Non-trivial = at least one call on a path that leads to an '
          'existing file; distinct = distinct (operations, observations) terms.',
